@@ -127,6 +127,9 @@ func c06WriteCorpus(r *core.Run, dir string) (map[string]string, error) {
 		}
 		classes[c06Mod+"/multi/"+name] = "generated-bad"
 	}
+	// error messages that mention a syntax node or a type of the input (every run must print the same text)
+	files["msgs/m0/m.go"] = "package m0\n\nfunc KeyArray() uint64 {\n\tm := make(map[[2]uint64]uint64)\n\treturn uint64(len(m))\n}\n\nfunc KeyStruct() uint64 {\n\tm := make(map[struct{ a uint64 }]bool)\n\treturn uint64(len(m))\n}\n\nfunc KeyPtr(p *uint64) uint64 {\n\tm := make(map[*uint64]uint64)\n\tm[p] = 1\n\treturn m[p]\n}\n\nfunc Lit() uint64 {\n\tx := struct{ a uint64 }{a: 1}\n\treturn x.a\n}\n\nfunc Conv(f float64) uint64 {\n\treturn uint64(f)\n}\n"
+	classes[c06Mod+"/msgs/m0"] = "generated-bad"
 	// packages that share their NAME (not their path) and differ in FFI, imports and contents: whatever is
 	// remembered per package must be keyed by the path
 	same := map[string]string{
